@@ -139,12 +139,15 @@ ADDENDA = {
          'refinement of the exit conditions in the stuck state), and every libvorbis function vorbisfile hands a vorbis_info to '
          'tolerates a cleared one (R03.5: K4 with codec_setup == NULL on entry); a NULL a library function can return is tested '
          'before it is dereferenced (R03.6); the link index changes only while the decoder is cleared (R03.7, K5 typestate); a '
-         'packet is read only after a positive packetout/packetpeek filled it (R03.8, K4 forked on the result class).',
+         'packet is read only after a positive packetout/packetpeek filled it (R03.8, K4 forked on the result class); a page '
+         'object is used only while libogg\'s sync buffer still holds it -- valid from a fetch that found a page until the next '
+         'call that can reach ogg_sync_buffer, with the fetch helpers verified rather than assumed (R03.9).',
          ' + stuck-state analysis of sentinel loops + null-entry analysis of the info accessors'),
  'C05': ('The managed-bitrate path hands out one of the PACKETBLOBS encodings (R05.6), residue entry numbers are mixed-radix '
          'numbers with digits below the radix (R05.7), and submap bundles pair each slot with one channel identically in '
          'encoder and decoder (R05.8); every residue entry handed to the book encoder passed a non-zero codeword-length test '
-         'or the nearest-used-entry search on every path (R05.9).', ' + K4 value analysis of blob choice and codeword digits + must-path analysis of the quantiser'),
+         'or the nearest-used-entry search on every path (R05.9); the buffer vorbis_analysis hands out directly is a slot of the '
+         'blob table the mapping writes (R05.10).', ' + K4 value analysis of blob choice and codeword digits + must-path analysis of the quantiser'),
  'C07': ('The window history of vorbis_synthesis_blockin is recorded before anything reads it, also for track-only blocks '
          '(R07.8); events performed inside helper functions count (a helper that must restart the decoder, may move the stream); '
          'the data offsets seeks start from see their link\'s header fetch as last writer of the stream position (R07.9, '
@@ -153,11 +156,13 @@ ADDENDA = {
          ' + provenance/last-writer analysis + libogg object typestate (K2 flags)'),
  'C08': ('The sample-discard loop of a sample-accurate seek makes progress: the remaining distance is at least one output '
          'sample whenever its body runs, at full and at half rate (R08.8); page properties kept in flags are recomputed for '
-         'every page submitted (R08.9).', ' + K4 progress obligation on the discard loop'),
+         'every page submitted (R08.9); a page seek that reports success has selected a stream, from every consistent entry '
+         'state (R08.10, K5).', ' + K4 progress obligation on the discard loop'),
  'C09': ('Block-overlap sums skip the first packet at every site (R09.6) and the downward search over the links ends on a link '
          'wherever its variable subscripts a per-link table (R09.7: K4, with the lemma that the remaining total is 0 at link 0).'
          ' A link\'s serial number and data offset in the per-link tables derive from reads of the stream state whose last '
-         'writer is that link\'s header fetch (R09.8), and so does the lower bound handed to the next bisection level (R09.9).',
+         'writer is that link\'s header fetch (R09.8), and so does the lower bound handed to the next bisection level (R09.9); the loop that searches for the end of a link '
+         'is left only through its guard or an error return (R09.10).',
          ' + K4 range obligations on link searches + provenance/last-writer analysis'),
  'C10': ('_fetch_headers performs the stream set-up of the link in every call that reports success, whatever state the handle '
          'was entered in (R10.4); serial numbers in the link table see their link\'s header fetch (R10.5); a fetched page is '
